@@ -19,7 +19,8 @@ code by proof obligations and not only by the correspondence run):
   * callSites: every call of syncreq / asyncreq / sync_request / async_request / _async_request in the rpyc package
     whose handler is a HANDLE_* constant (AST), as (HANDLE name, number of request arguments);
   * Gen/Recorded.lean (section 2): what the LIVE code did at generation time on fixed probes — `Connection._box` on
-    five objects; the request each live call site of netref/protocol/helpers emitted (decoded with the independent
+    seven objects (ordinary objects get their id_pack from the live rpyc.lib.get_id_pack; the two id() numbers in it
+    are replaced by fixed ones in what is recorded); `Connection._unbox` on ten boxed values; the request each live call site of netref/protocol/helpers emitted (decoded with the independent
     reference decoder), including keyword arguments; the reply / exception `_dispatch_request` sent for five
     requests (built-in and custom exception, StopIteration, a keyword-argument call); how `_dispatch` classified
     seventeen payloads (bool / float / complex message kinds, wrong arities, ...).  All probes use fixed id_packs,
@@ -262,8 +263,11 @@ class ProbeError(Exception):
 P_ID = ("probe.P", 11, 22)
 Q_ID = ("probe.Q", 12, 23)
 K_ID = ("probe.K", 33, 0)
-OBJ_ID = ("probe.Obj", 44, 55)
-SVC_ID = ("probe.Svc", 66, 77)
+# ordinary objects get their id_pack from the live rpyc.lib.get_id_pack: (module.class, id(type), id(obj)); the two id()
+# numbers differ from run to run and are replaced by these in everything that is recorded
+OBJ_ID = ("gen_proto_consts.Obj", 44, 55)
+SVC_ID = ("gen_proto_consts.Svc", 66, 77)
+IDMAP = {}
 P_METHODS = (("meth", None), ("__call__", None), ("__getslice__", None), ("__iter__", None), ("__next__", None),
              ("__len__", None))
 QUIET = {"include_local_traceback": False, "include_local_version": False}
@@ -311,8 +315,12 @@ def _norm(v):
     t = type(v)
     if t is str:
         return re.sub(r" at 0x[0-9a-fA-F]+", " at 0x?", v)
+    if t is int and v in IDMAP:
+        return IDMAP[v]
     if t is tuple:
         return tuple(_norm(x) for x in v)
+    if type(v).__name__ == "FSet":
+        return type(v)(_norm(x) for x in v)
     return v
 
 
@@ -320,8 +328,10 @@ def gen_recorded():
     import refcodec as R
     import rpyc
     from rpyc.core import channel, consts, netref, protocol
+    from rpyc.lib import get_id_pack
     from rpyc.utils.helpers import buffiter
     H = R.HANDLERS
+    IDMAP.clear()
     L = ["import RpycModel.Base.Py", "namespace Rpyc.Gen.Recorded", "open Rpyc", ""]
     errors = []
 
@@ -417,7 +427,11 @@ def gen_recorded():
     if "k" in hold:
         probe("instancecheck", lambda: isinstance(p, hold["k"]))
         probe("del-class", lambda: hold.pop("k"))
-    obj = type("Obj", (), {"____id_pack__": OBJ_ID})()
+    obj = type("Obj", (), {})()
+    obj_id = get_id_pack(obj)
+    if obj_id[0] != OBJ_ID[0]:
+        raise Inexpressible("get_id_pack names the probe object %r" % (obj_id[0],))
+    IDMAP[obj_id[1]], IDMAP[obj_id[2]] = OBJ_ID[1], OBJ_ID[2]
     probe("call-with-object", lambda: p(obj, (1, obj)))
     probe("async-call-kw", lambda: rpyc.async_(p)(1, b=2))
     probe("timed-call-kw", lambda: rpyc.timed(p, 5)(2, c=(3,)))
@@ -441,9 +455,9 @@ def gen_recorded():
     unboxed = []
     for name, b in (("value", (consts.LABEL_VALUE, (1, "a"))),
                     ("tuple", (consts.LABEL_TUPLE, ((consts.LABEL_VALUE, 5), (consts.LABEL_VALUE, b"x")))),
-                    ("local-ref", (consts.LABEL_LOCAL_REF, OBJ_ID)),
+                    ("local-ref", (consts.LABEL_LOCAL_REF, obj_id)),
                     ("remote-ref-known", (consts.LABEL_REMOTE_REF, P_ID)),
-                    ("nested", (consts.LABEL_TUPLE, ((consts.LABEL_LOCAL_REF, OBJ_ID), (consts.LABEL_TUPLE, ((consts.LABEL_REMOTE_REF, P_ID),))))),
+                    ("nested", (consts.LABEL_TUPLE, ((consts.LABEL_LOCAL_REF, obj_id), (consts.LABEL_TUPLE, ((consts.LABEL_REMOTE_REF, P_ID),))))),
                     ("unknown-local-ref", (consts.LABEL_LOCAL_REF, ("no.Such", 1, 2))),
                     ("label-9", (9, None)), ("label-0", (0, None)), ("label-true", (True, 7)), ("not-a-pair", (1, 2, 3))):
         try:
@@ -483,19 +497,17 @@ def gen_recorded():
     L.append("proxy %s, a nested tuple and a byte string, an object with id_pack %s, the proxy," % (P_ID, OBJ_ID))
     L.append("a proxy of ANOTHER connection %s (it is an object like any other: REMOTE_REF), a tuple of both proxies -/" % (Q_ID,))
     L.append("def boxed : List (String × Val) := [")
-    L.append(",\n".join("  (%s, %s)" % (lean_str(n), lean_val(v)) for n, v in boxes))
+    L.append(",\n".join("  (%s, %s)" % (lean_str(n), lean_val(_norm(v))) for n, v in boxes))
     L.append("]")
 
     L += ["", "/-- `Connection._unbox` on boxed values (name, boxed value, what came out: `value`, `the-object` = the very object",
           "boxed before, `the-proxy` = the existing proxy, a tuple of those, or the exception) -/",
           "def unboxed : List (String × Val × String) := ["]
-    L.append(",\n".join("  (%s, %s, %s)" % (lean_str(n), lean_val(b), lean_str(o)) for n, b, o in unboxed))
+    L.append(",\n".join("  (%s, %s, %s)" % (lean_str(n), lean_val(_norm(b)), lean_str(o)) for n, b, o in unboxed))
     L.append("]")
 
     # ---- 3. what `_dispatch_request` sends back
     class Svc(rpyc.Service):
-        ____id_pack__ = SVC_ID
-
         def exposed_boom(self):
             raise KeyError("k")
 
@@ -509,9 +521,13 @@ def gen_recorded():
             return (a, b, c)
     st2 = _ProbeStream()
     svc = Svc()
+    svc_id = get_id_pack(svc)
+    if svc_id[0] != SVC_ID[0]:
+        raise Inexpressible("get_id_pack names the probe service %r" % (svc_id[0],))
+    IDMAP[svc_id[1]], IDMAP[svc_id[2]] = SVC_ID[1], SVC_ID[2]
     conn2 = svc._connect(channel.Channel(st2, True), dict(QUIET, allow_pickle=True))
-    root_ref = R.box_local(SVC_ID)
-    conn2._local_objects.add(SVC_ID, svc)
+    root_ref = R.box_local(svc_id)
+    conn2._local_objects.add(svc_id, svc)
     served = []
     reqs = [R.request(100, H["PING"], R.box_value((("x", 1.5),))),
             R.request(101, H["GETROOT"], R.box_value(())),
@@ -524,7 +540,7 @@ def gen_recorded():
             # replies whose shape the format fixes
             R.request(107, H["REPR"], R.box_value((5,))), R.request(108, H["STR"], R.box_value(("s",))),
             R.request(109, H["HASH"], R.box_value((5,))), R.request(110, H["DIR"], R.box_value((None,))),
-            R.request(111, H["INSPECT"], R.box_value((SVC_ID,))), R.request(112, H["BUFFITER"], R.box_value(((1, 2, 3), 2))),
+            R.request(111, H["INSPECT"], R.box_value((svc_id,))), R.request(112, H["BUFFITER"], R.box_value(((1, 2, 3), 2))),
             R.request(113, H["PICKLE"], R.box_value((5, 2)))]
     for rq in reqs:
         mark = len(st2.out)
@@ -536,7 +552,7 @@ def gen_recorded():
             errors.append("serve seq %d: %s" % (rq[1], type(ex).__name__))
     L += ["", "/-- (request fed to the live `_dispatch`, what it sent back) -/",
           "def served : List (Val × List Val) := ["]
-    L.append(",\n".join("  (%s, [%s])" % (lean_val(rq), ", ".join(lean_val(v) for v in vs)) for rq, vs in served))
+    L.append(",\n".join("  (%s, [%s])" % (lean_val(_norm(rq)), ", ".join(lean_val(v) for v in vs)) for rq, vs in served))
     L.append("]")
 
     # ---- 3b. the default configuration: traceback and version included.  The traceback text depends on paths and line
@@ -556,8 +572,11 @@ def gen_recorded():
         return _norm(v)
     st4 = _ProbeStream()
     svc4 = Svc()
+    svc4_id = get_id_pack(svc4)
+    IDMAP[svc4_id[2]] = SVC_ID[2]
     conn4 = svc4._connect(channel.Channel(st4, True), {})
-    conn4._local_objects.add(SVC_ID, svc4)
+    conn4._local_objects.add(svc4_id, svc4)
+    root_ref = R.box_local(svc4_id)
     served_default = []
     for rq in (R.request(200, H["CALLATTR"], R.box_tuple([root_ref, R.box_value("boom"), R.box_value(()), R.box_value(())])),
                R.request(201, H["CALLATTR"], R.box_tuple([root_ref, R.box_value("custom"), R.box_value(()), R.box_value(())]))):
@@ -570,7 +589,7 @@ def gen_recorded():
     L += ["", "/-- the same two failing requests under the DEFAULT configuration (traceback and version included; the traceback",
           "is cut to its first and last line, the version string replaced by `<version>`) -/",
           "def servedDefault : List (Val × List Val) := ["]
-    L.append(",\n".join("  (%s, [%s])" % (lean_val(rq), ", ".join(lean_val(v) for v in vs)) for rq, vs in served_default))
+    L.append(",\n".join("  (%s, [%s])" % (lean_val(_norm(rq)), ", ".join(lean_val(v) for v in vs)) for rq, vs in served_default))
     L.append("]")
     try:
         conn4.close()
